@@ -118,6 +118,42 @@ class Norm:
     def t(self, n):
         return self.fn.tstr(n)
 
+    def ref_alias(self, d):
+        """a local *reference* initialised with a pure member path (`auto& q = sem_->queue_;`, `auto& l = list_;`) is that object under another
+        name for its whole life (a C++ reference cannot be re-bound): it is replaced by the path, so that introducing or removing such a name changes no
+        normal form.  References to anything computed (`*it`, `f()`, `v[i]`) are left alone."""
+        tab = getattr(self, '_refalias', None)
+        if tab is None:
+            if getattr(self, '_refalias_busy', False):
+                return None
+            tab = {}
+            self._refalias_busy = True
+            try:
+                for el in self.fn.get('elems') or ():
+                    x = el['x']
+                    if x.get('k') != 'Decl':
+                        continue
+                    for dd in x.get('decls', ()):
+                        v = dd.get('d') or {}
+                        if dd.get('init') is None or v.get('dk') != 'local' or v.get('n', '').startswith('__'):
+                            continue
+                        ty = self.fn.tstr(dd.get('t', -1))
+                        if not ty.endswith('&') or ty.endswith('&&'):
+                            continue
+                        t = self.norm(dd['init'])
+                        while t[0] in ('cast', 'conv'):
+                            t = t[2]
+                        ok = t[0] == 'field'
+                        for sub in subterms(t):
+                            if sub[0] not in ('field', 'this', 'var'):
+                                ok = False
+                        if ok:
+                            tab[(v['n'], v.get('at', 0))] = t
+            finally:
+                self._refalias_busy = False
+            self._refalias = tab
+        return tab.get((d['n'], d.get('at', 0)))
+
     def __call__(self, n):
         return self.norm(n)
 
@@ -153,6 +189,10 @@ class Norm:
             if 'cv' in n and dk in ('global', 'smember', 'slocal', 'local') and self.t(n).startswith('const '):
                 v = n['cv']
                 return ('float', v) if isinstance(v, float) else ('int', v)
+            if dk == 'local' and not d['n'].startswith('__'):
+                r = self.ref_alias(d)
+                if r is not None:
+                    return r
             return ('var', dk, d['n'], d.get('at', 0))
         if k == 'Mem':
             d = n['d']
